@@ -60,6 +60,7 @@ Inductive rcall :=
 | CGetWl (id : string)                (* GetWorkloads [id] incl. binding the node *)
 | PAddNode (n : string)
 | PRemoveNode (n : string)
+| PCapacity (n : string)              (* rmgr.GetNodesDeployCapacity of the single node (doGetDeployStrategy) *)
 | PAlloc (n : string)
 | PRollbackAlloc (n : string)
 | PSetUsage (n : string)
@@ -105,7 +106,7 @@ Definition exec (w : rw) (tid : nat) (c : rcall) : option (rw * reply) :=
                end)
   | PAddNode n => Some (if mem n (nres w) then (w, no) else (set_nres w (n :: nres w), yes))
   | PRemoveNode n => Some (if mem n (nres w) then (set_nres w (rm n (nres w)), yes) else (w, no))
-  | PAlloc n | PRollbackAlloc n | PSetUsage n => Some (w, if mem n (nres w) then yes else no)
+  | PCapacity n | PAlloc n | PRollbackAlloc n | PSetUsage n => Some (w, if mem n (nres w) then yes else no)
   | CLock k =>
       match holder w k with
       | Some _ => None
@@ -178,6 +179,8 @@ Definition create (n id : string) : prog :=
     if negb (r_ok r) then Ret false else
     let p := hd_str (r_strs r) in
     Do (CLock (plock p)) (fun _ =>
+     Do (PCapacity n) (fun r1 =>                     (* doGetDeployStrategy: no capacity, no plan *)
+      if negb (r_ok r1) then Do (CUnlock (plock p)) (fun _ => Ret false) else
       Do (PAlloc n) (fun r2 =>
         Do (CUnlock (plock p)) (fun _ =>
           if negb (r_ok r2) then Ret false else
@@ -185,7 +188,7 @@ Definition create (n id : string) : prog :=
             if negb (r_ok r3) then rollback_alloc n else
             Do (CAddWl id n) (fun r4 =>
               if r_ok r4 then Ret true
-              else Do (CRemoveWl id) (fun _ => rollback_alloc n))))))).
+              else Do (CRemoveWl id) (fun _ => rollback_alloc n)))))))).
 
 Definition remove_wl (id : string) : prog :=
   Do (CGetWl id) (fun r =>                           (* groupWorkloadsByNode *)
@@ -307,7 +310,7 @@ Definition call_eqb (a b : rcall) : bool :=
   | CAddPod x, CAddPod y | CListPodNodes x, CListPodNodes y | CGetPod x, CGetPod y | CDeletePod x, CDeletePod y
   | CGetNode x, CGetNode y | CRemoveNode x, CRemoveNode y | CListNodeWls x, CListNodeWls y
   | CRemoveWl x, CRemoveWl y | CGetWl x, CGetWl y | PAddNode x, PAddNode y | PRemoveNode x, PRemoveNode y
-  | PAlloc x, PAlloc y | PRollbackAlloc x, PRollbackAlloc y | PSetUsage x, PSetUsage y
+  | PCapacity x, PCapacity y | PAlloc x, PAlloc y | PRollbackAlloc x, PRollbackAlloc y | PSetUsage x, PSetUsage y
   | CLock x, CLock y | CUnlock x, CUnlock y => String.eqb x y
   | CCreateNode x1 x2, CCreateNode y1 y2 | CAddWl x1 x2, CAddWl y1 y2 => String.eqb x1 y1 && String.eqb x2 y2
   | _, _ => false
